@@ -160,6 +160,10 @@ def check_add_measures(ctx, part, before, w):
         ctx.check()
         if beats == b:
             continue
+        from fractions import Fraction as _F
+        if (_F(4 * b * sigmaps.div_at(d, s), bt)).denominator != 1:
+            ctx.ambiguous()              # the bar is not a whole number of divisions: where it is cut is don't-care
+            continue
         if beats > b:
             ctx.violation("add_measures-measure-longer-than-bar", f"added measure [{s},{e}) lasts {beats} beats under {b}/{bt}", w)
             return
@@ -306,7 +310,7 @@ def setup(ctx):
 
 # ---------------------------------------------------------------- workload
 def plan(tier, seed):
-    n = 16 * 20 if tier == "quick" else 16 * 400
+    n = 16 * 40 if tier == "quick" else 16 * 500
     items = [["raw", i] for i in range(n)] + [["gen", i] for i in range(n // 2)]
     if tier == "quick":
         items += [["table", lo, lo + 30, 0.02] for lo in range(1, 961, 30)]
@@ -329,12 +333,21 @@ def build_raw_part(rng):
     t_change = None
     length = 0
     bars = []
+    q_changes = 0
     for i in range(total_bars):
         if i > 0 and t_change is None and rng.random() < 0.25:
-            ts = rng.choice(meters)
+            ts = rng.choice([m_ for m_ in meters if (4 * q * m_[0]) % m_[1] == 0] or [ts])
             bar = 4 * q * ts[0] // ts[1]
             part.add(S.TimeSignature(*ts), length)
             t_change = length
+        elif i > 0 and rng.random() < 0.2:
+            # the divisions change on a barline (held notes cross it)
+            cands = [x for x in [1, 2, 3, 4, 6, 8, 12, 16, 24, 48] if x != q and (4 * x * ts[0]) % ts[1] == 0]
+            if cands:
+                q = rng.choice(cands)
+                part.set_quarter_duration(length, q)
+                bar = 4 * q * ts[0] // ts[1]
+                q_changes += 1
         bars.append((length, length + bar))
         length += bar
     end = length - (rng.randint(0, bar - 1) if rng.random() < 0.3 else 0)     # last bar may be cut by the end
@@ -379,7 +392,7 @@ def build_raw_part(rng):
             t += d
     if part.last_point.t < end:
         part.add(S.Rest(id="rend", voice=1, staff=1), part.last_point.t, end)
-    return part, {"existing": existing, "bars": len(bars), "q": q}
+    return part, {"existing": existing, "bars": len(bars), "q": q, "q_changes": q_changes}
 
 
 def run_item(ctx, item):
@@ -407,7 +420,7 @@ def run_item(ctx, item):
                  n_after > n_before and (meta["existing"] >= 1 or gaps), cls="raw",
                  sample={"divisions": meta["q"], "existing_measures": meta["existing"], "bars": meta["bars"], "notes_before": n_before,
                          "notes_after": n_after, "calls": seq})
-        ctx.state(f"{meta['existing'] > 0}:{gaps}:{n_after - n_before > 2}:{seq[0]}:{len(seq)}")
+        ctx.state(f"{meta['existing'] > 0}:{gaps}:{n_after - n_before > 2}:{seq[0]}:{len(seq)}:{meta['q_changes'] > 0}")
     elif kind == "gen":
         rng = ctx.rng("gen", item[1])
         part, meta = gen_score.make_part(rng, "P1", profile="full")
